@@ -4,9 +4,17 @@ _m = importlib.util.module_from_spec(_s); _s.loader.exec_module(_m)
 
 PROP = dict(
     level="other",
-    engine="verus",
+    engine="verus+kani",
     units=["acctstatus", "acctstate"],
-    explanation="The functions that create and apply reverts (BundleAccount::update_and_create_revert, BundleAccount::revert, "
+    kani=_m.K17,
+    explanation="BOUNDED STAND-IN (Kani on the real files, kani/kstates/src/c17.rs; reported under bounded_obligations, never counted "
+                "as proved): for each of the 30 (bundle status, transition status, wipe flag) triples reachable by legal events, "
+                "update_and_create_revert(t) followed by revert(the returned revert) restores status and info, the revert records "
+                "the info before the group (RevertTo / DeleteIt iff absent / DoNothing iff unchanged) and previous_status, and "
+                "wipe_storage is true where the group destroys an account whose storage is in the database and false where it does "
+                "not destroy or the account was destroyed already -- on EMPTY storage maps: the slot list of the revert (values "
+                "before the group, RevertToSlot::{Some, Destroyed}, the wiped / not-wiped reading rule) and the restoration of "
+                "present storage values are checked by NOTHING: " + _m.KSTATES_COST + " The functions that create and apply reverts (BundleAccount::update_and_create_revert, BundleAccount::revert, "
                 "AccountRevert::new_selfdestructed*, Reverts::to_plain_state_reverts) are closures over iterator adapters and are "
                 "outside the verifier's subset, so apply-then-revert == identity is NOT proved. What IS proved (Verus, unbounded, "
                 "verbatim code): the status machine over which the revert construction branches -- all destroy / recreate / "
@@ -15,11 +23,12 @@ PROP = dict(
                 "value, a slot not held reads as ZERO iff the status says storage is known -- wiped or created in memory -- and "
                 "is left to the database otherwise); BundleAccount::{account_info, was_destroyed, is_info_changed (AccountInfo "
                 "equality ignores the optional code)}; AccountRevert::is_empty == (DoNothing && no slot && !wipe_storage).",
-    level_text="status machine + reading rules only (see explanation); revert creation / application is not verified",
+    level_text="status machine + reading rules (Verus); revert creation / application: bounded Kani stand-in for the info / status / wipe-flag part on empty storage maps, the slot part is not verified",
     level_note=_m.LEFT_OUT + " " + _m.PLUMBING,
-    technique="Verus contracts on verbatim-extracted functions; finite status algebra proved completely",
-    trusted=_m.ACCT_TRUST,
-    assumptions=["BundleAccount::update_and_create_revert / revert and AccountRevert::new_selfdestructed* are NOT verified",
+    technique="Verus contracts on verbatim-extracted functions; finite status algebra proved completely; bounded Kani harnesses on the real bundle_account.rs / reverts.rs",
+    trusted=_m.ACCT_TRUST + _m.KSTATES_TRUST,
+    assumptions=["BundleAccount::update_and_create_revert / revert and AccountRevert::new_selfdestructed* are NOT verified (bounded stand-ins on empty storage maps only)",
+                 "domain of the bounded stand-in: the transition starts where the bundle account stands (previous_status / previous_info == the bundle account's), info present iff the status says the account exists; a CREATE never lands on an account in status Changed (collision rule, C21)",
                  "BundleState::revert / revert_latest, Reverts::to_plain_state_reverts: trusted plumbing"],
     rule="one evaluation per Verus obligation (each a distinct extracted function or lemma)",
 )
